@@ -4,7 +4,7 @@ import json,sys
 pid=sys.argv[1]
 round2=len(sys.argv)>2
 avoid=sys.argv[2] if round2 else ""
-suffix="b" if round2 else ""
+suffix=(sys.argv[3] if len(sys.argv)>3 else "b") if round2 else ""
 p=[json.loads(l) for l in open('/verif/properties.jsonl') if json.loads(l)['id']==pid][0]
 wt=f"/tmp/wt/{pid}{suffix}"
 print(f"""You are helping test a verification effort for the Go repository polynetwork/poly (a cross-chain relay-chain node). You have your OWN scratch git worktree of it at {wt} (a checkout of the pinned commit). Work ONLY inside {wt}. Never touch /repo or /verif, and do not read anything under /verif.
@@ -32,5 +32,5 @@ When done, leave in {wt}:
   - the source change applied in the working tree (uncommitted),
   - {wt}/MUTATION.md describing: which file/function you changed and why it breaks the property, what is needed for the breakage to manifest, the exact commands you ran (build, existing tests, demo with and without the change) and their outcomes.
 """ + (f"""
-IMPORTANT: an earlier volunteer already produced this change for the same property: "{avoid}". Produce something DIFFERENT: another function, another clause of the property statement, or another kind of slip (do not touch the same lines).
+IMPORTANT: earlier volunteers already produced the following change(s) for the same property: "{avoid}". Produce something DIFFERENT from all of them: another function, another clause of the property statement, or another kind of slip (do not touch the same lines).
 """ if round2 else "") + f"""Then reply with a short summary (the changed file(s), one-paragraph description, demo file path, and whether the demo fails-with/passes-without). Do not produce more than one mutation.""")
